@@ -16,6 +16,7 @@ from .. import common
 
 PROPS_MOD = "VncModel.Props.C03"
 EXTRA_TARGETS = ["drv_c03"]
+GEN = ["leaf"]      # T1: count expressions regenerated from the C source (Props.C03.T1)
 
 # protocol numbers used by the generators only (the model takes them from T0)
 RAW, COPYRECT, RRE, CORRE, HEXTILE, ZLIB, TIGHT, ULTRA, ZRLE, ZYWRLE = 0, 1, 2, 4, 5, 6, 7, 9, 16, 17
@@ -65,10 +66,8 @@ def merge(script, obs):
     return "\n".join(out) + "\n", i >= len(obs)
 
 
-# LeakSanitizer is switched off for this harness: the unchanged tree leaks a client iterator in the
-# SetDesktopSize success path (rfbserver.c, missing rfbReleaseClientIterator) - C12's subject, not a
-# property of the byte stream.  Memory errors (ASan) and UB (UBSan) stay fatal.
-HENV = {"ASAN_OPTIONS": "detect_leaks=0:abort_on_error=0:allocator_may_return_null=1"}
+# Leak detection stays on (the SetDesktopSize iterator leak seen earlier was fixed in /repo by 932e6b9).
+HENV = {"ASAN_OPTIONS": "detect_leaks=1:abort_on_error=0:allocator_may_return_null=1"}
 
 
 def run_case(ctx, h, d, script, what):
@@ -111,6 +110,8 @@ class Gen:
         self.scaled = {}
         self.known = {}           # id -> framebuffer size the client has been told (generator's estimate)
         self.pending = {}         # id -> a size change the server still owes this client
+        self.safe = {}            # id -> box inside every size the client may have been told so far
+        self.conservative = False # request only inside `safe` (sessions whose capabilities change)
         self.cbpp = {}            # id -> bits per pixel of the client's current format
         self.pref = {}            # id -> preferred pixel encoding (sticky like in the server)
         self.tags = set()
@@ -151,14 +152,15 @@ class Gen:
         self.normal.append(i)
         self.caps[i] = set()
         self.known[i] = (self.w, self.h)
+        self.safe[i] = (self.w, self.h)
         self.cbpp[i] = 8 * self.bpp
         self.pref[i] = RAW
         return i
 
     def png_unsafe(self, pref, cbpp):
-        """TightPng + 16bpp client + big rectangles overflows cl->afterEncBuf in pngWriteData (memory
-        safety defect of the unchanged tree, reported to C04/C01; not a wire-format question)"""
-        return pref == TIGHTPNG and cbpp == 16 and self.bpp != 1 and self.w * self.h > 36000
+        """(was: TightPng + 16bpp client + big rectangles overflowed cl->afterEncBuf in pngWriteData;
+        fixed in /repo by 58494c2, nothing is excluded any more)"""
+        return False
 
     def setpf(self, i, fmt):
         if self.png_unsafe(self.pref[i], fmt[0]):
@@ -168,7 +170,7 @@ class Gen:
 
     def req(self, i, inc, partial=False):
         """a conforming client never asks for more than the framebuffer it has been told about"""
-        kw, kh = self.known[i]
+        kw, kh = self.safe[i] if self.conservative else self.known[i]
         if partial:
             w = self.rng.randint(1, kw)
             h = self.rng.randint(1, kh)
@@ -180,20 +182,19 @@ class Gen:
                 self.known[i] = self.pending.pop(i)
 
     def resize(self, nw, nh, via=None):
-        if any(self.pref[i] == TIGHTPNG and self.cbpp[i] == 16 for i in self.normal) and self.bpp != 1 \
-                and nw * nh > 36000:
-            return
         if via is None:
             self.op("resize %d %d" % (nw, nh))
         else:
             self.op("setds %d %d %d" % (via, nw, nh))
         self.w, self.h = nw, nh
         for i in self.normal:
+            self.safe[i] = (min(self.safe[i][0], nw), min(self.safe[i][1], nh))
             if self.caps[i] & {NEWFBSIZE, EXTDESKTOPSIZE}:
                 self.pending[i] = (nw, nh)
 
     def setscale(self, i, k, palm=False):
         self.op("%s %d %d" % ("palmscale" if palm else "setscale", i, k))
+        self.safe[i] = (min(self.safe[i][0], self.w // k), min(self.safe[i][1], self.h // k))
         if self.caps[i] & {NEWFBSIZE, EXTDESKTOPSIZE}:
             self.pending[i] = (self.w // k, self.h // k)     # told by a NewFBSize rectangle, later
         else:
@@ -237,6 +238,7 @@ SCREENS = [(37, 23), (64, 48), (200, 150), (320, 200), (400, 300), (2500, 30), (
 
 def gen_session(rng):
     g = Gen(rng)
+    g.conservative = True
     r = rng
     w, h = r.choice(SCREENS)
     bpp = r.choice([1, 2, 4, 4])
